@@ -211,7 +211,10 @@ Definition driver_value (tbl : table) (d : driver) : res dvalue :=
 (** ** What is handed to the process executor *)
 Inductive executable :=
 | ExShell (s : text)          (* Executable(is_shell=True,  arg_list_or_str = ONE string) *)
-| ExArgv (l : list text).     (* Executable(is_shell=False, arg_list_or_str = list) *)
+| ExArgv (l : list text)      (* Executable(is_shell=False, arg_list_or_str = list) *)
+| ExShellList (l : list text). (* Executable(is_shell=True, arg_list_or_str = list): NEVER produced by the model or
+                                 the specification; only so that such an observation can be written down (with a
+                                 list, sh -c takes the first element as the command and the rest as $0, $1, ...) *)
 
 (** [_CommandTranslator]; the shell variant is [' '.join([command_line] + arguments)] *)
 Definition to_executable (d : dvalue) (args : list text) : executable :=
